@@ -28,7 +28,15 @@ func init() { register("C02", runC02) }
 func runC02(c *Ctx) {
 	c02Refusals(c, fK256)
 	c02BigIDs(c, fK256)
+	// structured layouts: hierarchical level layouts (interleaved, reversed, sparse, boundary, large
+	// ids, field-size bound), gate-tree shapes (nested thresholds, repeated leaves), CNF antichains
+	c02HierLayouts(c, fK256, 1)
+	c02TreeShapes(c, fK256, 1)
 	if c.Thorough() {
+		c02HierLayouts(c, fEd25519, 2)
+		c02TreeShapes(c, fBLS, 2)
+		c02Antichains(c, fK256, 300, 1)
+		c02Antichains(c, fPallas, 100, 2)
 		c02Exhaustive(c, fK256, 5, 11)
 		c02Exhaustive(c, fBLS, 4, 12)
 		c02Exhaustive(c, fEd25519, 3, 13)
@@ -38,6 +46,7 @@ func runC02(c *Ctx) {
 		c02Random(c, fP256, 150, 4)
 		c02Random(c, fPallas, 150, 5)
 	} else {
+		c02Antichains(c, fK256, 25, 1)
 		c02Exhaustive(c, fK256, 3, 11)
 		c02Random(c, fK256, 40, 1)
 		c02Random(c, fEd25519, 25, 2)
@@ -226,9 +235,12 @@ func c02One[S algebra.PrimeFieldElement[S]](c *Ctx, r *Rng, f algebra.PrimeField
 	M := sch.MSP()
 	mv := viewMSP(M).str(" ")
 	// shareholders of the policy that own no MSP row (they get no share and no set containing them is accepted)
+	// (only the holders the recorded finding is about — those in every maximal unqualified set of a CNF
+	// policy, computed from the policy description — are tagged; any other missing row is untagged)
 	rowless := map[uint64]bool{}
+	known := c02KnownRowless(p)
 	for _, id := range U {
-		if !M.Shareholders().Contains(sharing.ID(id)) {
+		if !M.Shareholders().Contains(sharing.ID(id)) && known[id] {
 			rowless[id] = true
 		}
 	}
@@ -790,6 +802,7 @@ func c02Tassa[S algebra.PrimeFieldElement[S]](c *Ctx, r *Rng, f algebra.PrimeFie
 
 func c02Family[S algebra.PrimeFieldElement[S]](c *Ctx, r *Rng, f algebra.PrimeField[S], p *c02Policy, full bool, idx int) {
 	c02One(c, r, f, p, full, idx)
+	c02Oracle(c, r, f, p, idx+3)
 	switch p.kind {
 	case "th":
 		c02Shamir(c, r, f, p, idx+1)
@@ -824,12 +837,17 @@ func c02Random[S algebra.PrimeFieldElement[S]](c *Ctx, f algebra.PrimeField[S], 
 		if it%3 == 0 {
 			c02Family(c, r, f, &c02Policy{kind: "un", ids: idLayout(r, n, style, 64)}, full, it)
 		}
-		// CNF: ids ≤ 64 in the property stream (the > 64 case is op mspbig)
-		c02Family(c, r, f, genCNF(r, idLayout(r, min(n, 5), min(style, 1), 6)), full, it+1)
+		// CNF: identifiers of any size (cnf.InducedMSP no longer needs a 64-bit mask, /repo 31f4236)
+		c02Family(c, r, f, genCNF(r, idLayout(r, min(n, 5), style, 64)), full, it+1)
 		// hierarchical: large ids make Tassa's field-size condition fail → refusal, mirrored
 		hb := []int{6, 6, 16, 30, 40}[r.IntN(5)]
 		c02Family(c, r, f, genHier(r, idLayout(r, n, style, hb)), full, it+2)
 		c02Family(c, r, f, genBoolexpr(r, idLayout(r, min(n, 5), style, 64)), full, it+3)
+		// any assignment of small identifiers to levels (interleaved / reversed layouts included)
+		c02Family(c, r, f, c02genHierAny(r), full, it+1)
+		if it%2 == 0 {
+			c02Family(c, r, f, c02genAntichain(r, idLayout(r, 4+r.IntN(2), style, 64)), false, it+2)
+		}
 	}
 }
 
@@ -1026,6 +1044,28 @@ func c02BigIDs[S algebra.PrimeFieldElement[S]](c *Ctx, f algebra.PrimeField[S]) 
 		})
 		c.Count("bigid.msp")
 		c.Emit(fmt.Sprintf("mspbig %s %s", ps, p.token()), res)
+	}
+	// every clause and the property oracle on CNF policies with identifiers above 64 (both tiers)
+	{
+		r := NewRng(c.Seed, 261)
+		top := ^uint64(0)
+		more := []*c02Policy{
+			{kind: "cnf", sets: [][]uint64{{100, 200}, {300, 400}}},
+			{kind: "cnf", sets: [][]uint64{{65, 66}, {66, 67}, {65, 67}}},
+			{kind: "cnf", sets: [][]uint64{{1, 2, 1000}, {2, 3, 1000}, {1, 3}, {3, 1 << 40}}},
+			{kind: "cnf", sets: [][]uint64{{top, 1}, {top - 1, 2}, {1 << 63, 3}}},
+			{kind: "cnf", sets: [][]uint64{{64, 65}, {63, 66}, {1, 64, 66}}},
+			{kind: "cnf", sets: [][]uint64{{1 << 32, 5}, {1<<32 + 1, 5}, {7, 1 << 33}}},
+		}
+		for i, p := range append(slices.Clone(cases), more...) {
+			c.Count("bigid.cnf")
+			c02Family(c, r, f, p, true, i)
+		}
+		for i := range 6 {
+			n := 3 + r.IntN(3)
+			c.Count("bigid.cnf")
+			c02Family(c, r, f, c02genAntichain(r, idLayout(r, n, 2, []int{7, 8, 40, 64}[r.IntN(4)])), n <= 4, i)
+		}
 	}
 	isnCases := append(slices.Clone(cases),
 		&c02Policy{kind: "th", t: 2, ids: []uint64{100, 200, 300}},
